@@ -418,6 +418,29 @@ impl Exec {
                 out.line(&format!("# case bdd nodes={} ops={} nv={}", inner, self.hist.len() - 2, self.nv));
                 true
             }
+            "qdeep" if ws.len() == 2 => {
+                // counts on a diagram with `k` levels (conjunction of k variables) on a fresh store
+                out.line(l);
+                out.flush();
+                let k: usize = ws[1].parse().unwrap_or(1).max(1);
+                let r = catch_unwind(AssertUnwindSafe(|| {
+                    let mut b = Bdd::new();
+                    let mut t = b.variable(Var(k - 1));
+                    for v in (0..k - 1).rev() {
+                        let x = b.variable(Var(v));
+                        t = b.and(x, t);
+                    }
+                    let m = b.models(t, false);
+                    let p = b.paths(t, false);
+                    format!("models {} {} paths {} {} depth {}", m.cmodels, m.models, p.cmodels, p.models, b.max_depth(t))
+                }));
+                match r {
+                    Ok(s) => out.line(&format!("~ {s}")),
+                    Err(_) => out.line("~ panic"),
+                }
+                out.line(&format!("# case bdd levels={k}"));
+                true
+            }
             "dump" | "wfcheck" | "classes" | "memocheck" | "alltt" => true, // regenerated by `finish`
             _ => false,
         }
